@@ -42,6 +42,7 @@ type Event struct {
 	Tgt     int   // target block index
 	// adversarial variations
 	BadSig bool // signature does not verify
+	Slot   int  // EvBlockSL with a single signer: explicit slot+1 to place the signature in (0 = the signer's own slot)
 	Name   string
 }
 
@@ -53,7 +54,14 @@ func (e Event) String() string {
 	case EvBlock:
 		return fmt.Sprintf("B%d", e.Block)
 	case EvBlockSL:
-		return fmt.Sprintf("B%d+sig%v(%d->%d)", e.Block, e.Signers, e.Src, e.Block)
+		s := fmt.Sprintf("B%d+sig%v(%d->%d)", e.Block, e.Signers, e.Src, e.Block)
+		if e.Slot > 0 {
+			s += fmt.Sprintf("@slot%d", e.Slot-1)
+		}
+		if e.BadSig {
+			s += "!badsig"
+		}
+		return s
 	case EvVote:
 		s := fmt.Sprintf("V%d(%d->%d)", e.Val, e.Src, e.Tgt)
 		if e.BadSig {
@@ -191,8 +199,11 @@ func (w *World) BlockWithLinks(e Event) *types.Block {
 			sig[5] ^= 0x40
 		}
 		order := w.ValidatorOrder(e.Block, s)
+		if e.Slot > 0 {
+			order = e.Slot - 1
+		}
 		if order < 0 {
-			order = s
+			order = 0
 		}
 		cp.SupLinks.AddSupLink(w.Blocks[e.Src].Height, w.Blocks[e.Src].Hash(), sig, order)
 	}
